@@ -143,7 +143,7 @@ def run_poly(ctx, ops, n_hist, length, maxdim, observe_always=False, batch=10):
             if v[0] == "MISMATCH":
                 site, tags = classify(lines, i, v[1])
                 ctx.violation("%s: %s | event: %s" % (site, v[1], l[:300]),
-                              {"history": lines[: i + 1], "verdict": v[1], "site": site, "tags": tags,
+                              {"history": lines[: i + 1], "driver": "pplv_lin", "verdict": v[1], "site": site, "tags": tags,
                                "replay_cmd": "bin/check %s --replay <this file>" % ctx.pid,
                                "harness_args": cmd[1:]},
                               found_input=True, record={"site": site, "tags": tags})
